@@ -168,7 +168,7 @@ pub fn generate(_prop: &str, tier: Tier, seed: u64, run: u64) -> Sc {
         return Sc { stack_kib, env: SEnv::new(), rename: vec![], ops: vec![], exhaust: Some(i) };
     }
     let mut k = TyKnobs::draw(&mut knobs);
-    k.defs = knobs.range(1, 6) as usize;
+    k.defs = knobs.range(1, if tier == Tier::Thorough { 8 } else { 6 }) as usize;
     if k.rec_pct == 0 {
         k.rec_pct = 25;
     }
@@ -185,7 +185,7 @@ pub fn generate(_prop: &str, tier: Tier, seed: u64, run: u64) -> Sc {
     };
     let pool = query_pool(&mut wl, &env, &k);
     let ngam = knobs.range(1, 3) as usize;
-    let nops = sched.range(3, 14) as usize;
+    let nops = sched.range(3, if tier == Tier::Thorough { 32 } else { 14 }) as usize;
     let twins: Vec<String> = base.0.keys().cloned().collect();
     let mut ops = Vec::new();
     for _ in 0..nops {
